@@ -3,6 +3,12 @@
 import json
 PROPS = [json.loads(l) for l in open('/verif/properties.jsonl')]
 CLAIMED = {
+ "C14": dict(
+    category="proof",
+    text="Coq theorems over an ARBITRARY inner WCS (record of functions on rational vectors): resampled = inner at p*f+o with unchanged attributes, shape*f = inner shape, round trip for all non-zero factors; reordered = conjugation by the two permutations with every per-axis attribute transported, argsort of any permutation is its inverse, round trip; compound = routing + concatenation, round trip when members round-trip and the mapping is onto, refusal of inconsistent world inputs on shared axes and of wrong-length parameters / non-permutations. Tied to /repo by a correspondence check over wrapper expressions (nested to depth 2) on an exact linear probe WCS, rank 0-2 inputs, plus a FITS-family direct oracle.",
+    design_ref="DESIGN.md §5.14",
+    note="Trusted: Coq kernel + VM; Model/M_Wrappers.v transcription; section-free hypotheses 'roundtrips' and 'wellformed' of the inner WCS are explicit premises (satisfied by lin_wcs, see C14_nonvacuous); harness ProbeWCS; gWCS inner family not generated.",
+    technique="Coq proof (field/ring over Q, permutation lemmas) over hand-written Gallina model + vm_compute correspondence check"),
  "C13": dict(
     category="proof",
     text="Coq theorem C13_renumber proves, for any number of aligned axes, any ascending set of dropped aligned indices and any per-member axis order, that the loop of _update_aligned_axes (per-member copy of the index array) yields exactly the closed-form renumbering 'same physical axes lowered by the number of dropped member axes below them'; C13_drops_wellformed shows every item meets its hypotheses. The whole edit state machine (slice, select, copy, pop, del, update, refused ops) is an executable Gallina model whose every reached state is compared with the implementation's (keys, shapes, aligned axes, unchanged-after-refusal) and checked against the boolean invariant inv inside Coq; invariant preservation by induction over histories is NOT yet proved (partial: checked per reached state by vm_compute, not by theorem).",
